@@ -14,6 +14,7 @@ import MutagenModel.Model.Mp4Tags
 import MutagenModel.Model.DictMp4
 import MutagenModel.Model.Utf8
 import MutagenModel.Generated.Genres
+import MutagenModel.Model.TagOrder
 set_option linter.unusedVariables false
 namespace Mutagen.Mp4R
 open Mutagen
@@ -254,5 +255,37 @@ def loadTags : List (Bytes × Nat × Bytes) → Tags → Option Tags
 order, unless a tag with that key exists now, `Atom.render(name, data)` of every payload kept -/
 def failedValues (t : Tags) : List Bytes :=
   (t.failed.filter fun kv => !(t.items.any fun it => it.1 == kv.1)).flatMap fun kv => kv.2.map (Mp4Tags.renderAtom kv.1)
+
+/-! ### the order in which `MP4Tags.save` writes the items: `_item_sort_key` -/
+
+/-- `order` of `_item_sort_key` (Latin-1 bytes of the names) -/
+def sortOrder : List Bytes :=
+  [[0xa9, 0x6e, 0x61, 0x6d], [0xa9, 0x41, 0x52, 0x54], [0xa9, 0x77, 0x72, 0x74], [0xa9, 0x61, 0x6c, 0x62], [0xa9, 0x67, 0x65, 0x6e],
+   [0x67, 0x6e, 0x72, 0x65], [0x74, 0x72, 0x6b, 0x6e], [0x64, 0x69, 0x73, 0x6b], [0xa9, 0x64, 0x61, 0x79], [0x63, 0x70, 0x69, 0x6c],
+   [0x70, 0x67, 0x61, 0x70], [0x70, 0x63, 0x73, 0x74], [0x74, 0x6d, 0x70, 0x6f], [0xa9, 0x74, 0x6f, 0x6f], [0x2d, 0x2d, 0x2d, 0x2d],
+   [0x63, 0x6f, 0x76, 0x72], [0xa9, 0x6c, 0x79, 0x72]]
+
+/-- `order.get(key[:4], last)` -/
+def sortPrio (key : Bytes) : Nat := sortOrder.findIdx (· = key.take 4)
+
+/-- a tag as `save` sees it: its key, `repr(value)` (code points; Python's `repr` is not modelled — a parameter), and what
+`_render(key, value)` returns -/
+structure SItem where
+  key : Bytes
+  repr : List Nat
+  rendered : Bytes
+deriving Repr
+
+/-- `_item_sort_key(a) <= _item_sort_key(b)`: `(order.get(key[:4], last), len(repr(value)), repr(value))`, tuples and
+strings compared as Python does -/
+def itemLe (a b : SItem) : Bool :=
+  decide (sortPrio a.key < sortPrio b.key) || (decide (sortPrio a.key = sortPrio b.key) &&
+    (decide (a.repr.length < b.repr.length) || (decide (a.repr.length = b.repr.length) && TagOrder.lexLe a.repr b.repr)))
+
+/-- `sorted(self.items(), key=…)` (stable: items with equal sort keys keep the order of the dict) -/
+def sortItems (items : List SItem) : List SItem := items.mergeSort itemLe
+
+/-- the children of the `ilst` atom `save` renders: the rendered items in sort order, then the atoms kept in `_failed_atoms` -/
+def ilstChildren (items : List SItem) (t : Tags) : List Bytes := (sortItems items).map (·.rendered) ++ failedValues t
 
 end Mutagen.Mp4R
